@@ -23,6 +23,34 @@ class World:
             self.type_names.setdefault(c.__name__, c)
             self.type_names[c.__module__ + '.' + c.__qualname__] = c
             self.type_names[c.__qualname__] = c
+        self.register_constants()
+
+    def register_constants(self):
+        """module-level objects of repo classes that the code refers to by name"""
+        self.const_objects = {}
+        try:
+            m = repo.load('core.matcher')
+            for name in ('always', 'never'):
+                obj = getattr(m, name)
+                self.const_objects[id(obj)] = (z3.Int('const|core.matcher.' + name), obj)
+        except Exception:
+            pass
+
+    def const_facts(self, heap):
+        out = []
+        terms = []
+        for term, obj in self.const_objects.values():
+            cls = type(obj)
+            out += [term > 0, heap.is_alloc(term), cls_of(term) == self.class_id(cls)]
+            for fname, (fkey, fty) in self.fields_of(cls).items():
+                if hasattr(obj, fname) and isinstance(getattr(obj, fname), (bool, int, str)) and isinstance(fty, (TBool, TInt, TStr)):
+                    v = getattr(obj, fname)
+                    lit = z3.BoolVal(v) if isinstance(v, bool) else (z3.IntVal(v) if isinstance(v, int) else str_lit(v))
+                    out.append(heap.read_field(fkey, fty, term).term == lit)
+            terms.append(term)
+        if len(terms) > 1:
+            out.append(z3.Distinct(*terms))
+        return out
 
     def class_id(self, c):
         if c not in self.cls_id:
